@@ -303,7 +303,11 @@ class BaseClient:
         return result.event
 
     def trigger_event(self, event: events.BaseEvent):
-        for callback in self.callbacks:
+        # iterate over a copy: callbacks may add or remove callbacks
+        # (waitforevent does) and must not make others miss the event
+        for callback in list(self.callbacks):
+            if callback not in self.callbacks:
+                continue
             if callback.accepts_event(event):
                 try:
                     if asyncio.iscoroutinefunction(callback.callback):
